@@ -6,8 +6,8 @@ CASES = [
          edits=[("      if var_positional_start is None or index < var_positional_start:\n        k = self.__signature_info__.index_to_key(index, self.__arguments__)",
                  "      if index < var_positional_start:\n        k = self.__signature_info__.index_to_key(index, self.__arguments__)")]),
     dict(id='c03-slice-none-guard-dropped', prop='C03', file=C, expect='violation',
-         edits=[("    if var_positional_start is None or index_range[0] < var_positional_start:",
-                 "    if index_range[0] < var_positional_start:")]),
+         edits=[("    if var_positional_start is None or lowest < var_positional_start:",
+                 "    if lowest < var_positional_start:")]),
     dict(id='c03-get-default-none', prop='C03', file=S, expect='violation',
          edits=[("""      if (
           self.var_positional_start is None
@@ -15,11 +15,12 @@ CASES = [
       ):""", """      if argument < self.var_positional_start:""")]),
     dict(id='c03-set-index-none', prop='C03', file=C, expect='violation',
          edits=[("""    if positional_num is None:
-      # *args does not exist
-      positional_num = len(self.__signature_info__.parameters)
-      if self.__signature_info__.var_keyword_name:
-        # Exclude **kwargs
-        positional_num -= 1
+      # *args does not exist: only positional parameters can be indexed (not
+      # keyword-only parameters or **kwargs).
+      positional_num = sum(
+          param.kind in (param.POSITIONAL_ONLY, param.POSITIONAL_OR_KEYWORD)
+          for param in self.__signature_info__.parameters.values()
+      )
 """, "")]),
     dict(id='c03-setattr-no-validate', prop='C03', file=C, expect='violation',
          edits=[("    self.__signature_info__.validate_param_name(name, self.__fn_or_cls__)\n    self._arguments_set_value(name, value)",
@@ -66,9 +67,10 @@ CASES = [
     # benign
     dict(id='c03-benign-none-guard-early-return', prop='C03', file=C, expect='silent',
          edits=[("""    if positional_num is None:
-      # *args does not exist
-      positional_num = len(self.__signature_info__.parameters)""", """    if not (positional_num is not None):
-      positional_num = len(self.__signature_info__.parameters)""")]),
+      # *args does not exist: only positional parameters can be indexed (not
+      # keyword-only parameters or **kwargs).
+      positional_num = sum(""", """    if not (positional_num is not None):
+      positional_num = sum(""")]),
     dict(id='c03-benign-validate-tuple', prop='C03', file=S, expect='silent',
          edits=[("""      if param.kind == param.POSITIONAL_ONLY:
         raise AttributeError(
@@ -89,4 +91,60 @@ CASES = [
           or argument < self.var_positional_start
       ):""", """      start = self.var_positional_start
       if start is None or argument < start:""")]),
+]
+
+CASES += [
+    dict(id='c03-benign-delete-reversed-sorted', prop='C03', file=C,
+         expect='silent',
+         edits=[("    for index in sorted(indices, reverse=True):",
+                 "    for index in reversed(sorted(indices)):")]),
+    dict(id='c03-delete-unsorted', prop='C03', file=C, expect='violation',
+         names='DOM.delete-discipline',
+         edits=[("    for index in sorted(indices, reverse=True):",
+                 "    for index in reversed(indices):")]),
+    dict(id='c03-benign-delitem-range-two-tests', prop='C03', file=C,
+         expect='silent',
+         edits=[("      if not 0 <= key < len(all_positional_args):",
+                 "      if key < 0 or key >= len(all_positional_args):")]),
+    dict(id='c03-delitem-upper-bound-off-by-one', prop='C03', file=C,
+         expect='violation', names='BOUND.index-range',
+         edits=[("      if not 0 <= key < len(all_positional_args):",
+                 "      if key < 0 or key > len(all_positional_args):")]),
+    dict(id='c03-benign-slot-count-comprehension', prop='C03', file=C,
+         expect='silent',
+         edits=[("""      positional_num = sum(
+          param.kind in (param.POSITIONAL_ONLY, param.POSITIONAL_OR_KEYWORD)
+          for param in self.__signature_info__.parameters.values()
+      )""", """      positional_num = len([
+          p for p in self.__signature_info__.parameters.values()
+          if p.kind in (p.POSITIONAL_ONLY, p.POSITIONAL_OR_KEYWORD)
+      ])""")]),
+    dict(id='c03-index-to-key-no-negative-check', prop='C03', file=S,
+         expect='violation', names='BOUND.index-range',
+         edits=[("""      if index < 0:
+        raise IndexError('Positional argument index out of range.')
+""", "")]),
+    dict(id='c03-snapshot-dropped', prop='C03', file=C, expect='violation',
+         names='DEFUSE.shift-snapshot',
+         edits=[("              new_value = old_arguments[new_value.index]\n          self._arguments_set_value(index, new_value)\n        else:",
+                 "              new_value = self.__arguments__[new_value.index]\n          self._arguments_set_value(index, new_value)\n        else:")]),
+    dict(id='c03-benign-snapshot-dict', prop='C03', file=C, expect='silent',
+         edits=[("      old_arguments = self.__arguments__.copy()",
+                 "      old_arguments = dict(self.__arguments__)")]),
+    dict(id='c03-view-without-unset-slots', prop='C03', file=C,
+         expect='violation', names='AGREE.positional-view',
+         edits=[("""    key = self.__signature_info__.replace_varargs_handle(key)
+    all_positional_args, _ = self.__signature_info__.transform_to_args_kwargs(
+        self.__arguments__,
+        include_pos_or_kw_in_args=True,
+        include_no_value=True,
+    )
+    var_positional_start = self.__signature_info__.var_positional_start
+    if isinstance(key, slice):""", """    key = self.__signature_info__.replace_varargs_handle(key)
+    all_positional_args, _ = self.__signature_info__.transform_to_args_kwargs(
+        self.__arguments__,
+        include_pos_or_kw_in_args=True,
+    )
+    var_positional_start = self.__signature_info__.var_positional_start
+    if isinstance(key, slice):""")]),
 ]
